@@ -6,7 +6,8 @@ list="$*"; [ -z "$list" ] && list=$(ls refactors | grep '^C')
 : > /tmp/refmatrix.txt
 for r in $list; do
   id=${r%%-*}
-  out=$(timeout 1200 tools/try_patch.sh refactors/$r/patch.diff $id 2>&1); rc=$(echo "$out" | tail -1 | sed 's/.*rc=//')
+  pf=refactors/$r/patch-rebased.diff; [ -f $pf ] || pf=refactors/$r/patch.diff
+  out=$(timeout 1200 tools/try_patch.sh $pf $id 2>&1); rc=$(echo "$out" | tail -1 | sed 's/.*rc=//')
   echo "$r $id rc=$rc viol=$(echo "$out" | grep -c '^VIOLATION') mach=$(echo "$out" | grep -c MACHINERY)" | tee -a /tmp/refmatrix.txt
 done
 {
